@@ -161,6 +161,15 @@ def zoo_monitor(ex, prev, aev, conc, taken, nxt, pops):
         ex.stats.bump("c09_notation_reactions", len(want))
 
 
+# three interaction loops; the loser of the main loop (p) takes down its child c, the only flow of loop L2, in the same step
+for _order in (("z", "p", "q"), ("p", "z", "q"), ("p", "q", "z")):
+    MAINS["cascade-three-loops:" + "".join(_order)] = (
+        "flow p\n  start c\n  match E(k=1)\n  start ActPAction()\n  match Never()\n\n"
+        '@loop("L2")\nflow c\n  match E(k=1, m=2)\n  start ActCAction()\n  match Never()\n\n'
+        "flow q\n  match E(k=1, m=2)\n  start ActQAction()\n  match Never()\n\n"
+        '@loop("L3")\nflow z\n  match E(k=1)\n  start ActZAction()\n  match E(k=1)\n  send ReplyZ()\n  match Never()\n\n'
+        "flow main\n" + "".join(f"  start {f}\n" for f in _order) + "  match Never()\n", [])
+
 UTTERANCES = ["hi", "bye", "go", "stop", "zzz"]
 
 
@@ -169,6 +178,8 @@ def alphabet_for(name):
     fixed.append(("ext", "Done", {}))
     if name == "core-or-when":
         fixed.append(("ext", "UtteranceUserActionStarted", {}))
+    if name.startswith("cascade-three-loops"):
+        fixed = [("ext", "E", {"k": 1, "m": 2}), ("ext", "E", {"k": 1}), ("ext", "X", {})]
     if name == "notation-zoo":
         fixed = [("ext", n, {}) for n in ["Go", "StartUtteranceBotAction", "StopUtteranceBotAction", "ChangeUtteranceBotAction",
                                           "UtteranceBotActionStarted", "UtteranceBotActionFinished", "UtteranceBotActionScriptUpdated"]]
@@ -230,6 +241,7 @@ def explore(task):
 
 def tasks(tier):
     heavy = {"core-dialog": (4, 6), "guardrails-io": (5, 7), "notation-zoo": (4, 5)}
+    heavy.update({n: (3, 4) for n in MAINS if n.startswith("cascade-three-loops")})
     out = []
     for n in MAINS:
         q, t = heavy.get(n, (8, 11))
